@@ -463,7 +463,8 @@ func cadenceCase(t *testing.T, r *evid.Run, idx int) {
 		svc := fakesvc.New()
 		svc.Set("a", 1, []byte("a1"))
 		svc.Set("b", 1, []byte("b1"))
-		interval := []time.Duration{time.Second, time.Minute, time.Hour, 7 * time.Hour, 0}[rng.IntN(5)]
+		// (also intervals that are not a whole number of seconds: 1.5 s, 2.5 s, 1.2 s, 90.5 s)
+		interval := []time.Duration{time.Second, time.Minute, time.Hour, 7 * time.Hour, 0, 1500 * time.Millisecond, 2500 * time.Millisecond, 1200 * time.Millisecond, 90500 * time.Millisecond, 700 * time.Millisecond}[rng.IntN(10)]
 		// the service may take a noticeable part of the interval to answer; the cadence is per interval all the same
 		if lat := []time.Duration{0, 0, 20, 8}[rng.IntN(4)]; lat > 0 {
 			eff := interval
